@@ -218,8 +218,9 @@ pub fn model(lines: &[&str], mode: u8, default_bank: u8, default_volume: i32) ->
             continue;
         }
         *accepted.last_mut().unwrap() = true;
-        // lines sharing a time form a group
-        if (time - p.time).abs() >= f64::EPSILON {
+        // lines sharing a time form a group (exactly equal times; -0 and 0 are the same time)
+        #[allow(clippy::float_cmp)]
+        if time != p.time {
             flush(&mut p, &mut cp);
         }
         let d = D { time, sv: sm.clamp(0.1, 10.0), ticks: !bl.is_nan() };
